@@ -252,16 +252,41 @@ pub fn build_snow(
                 keys.push((p.idx, k));
             }
         }
-        for (i, k) in &keys {
-            b = b.psk(*i, k)?;
+        if cfg.build_order & 64 != 0 {
+            keys.reverse();
         }
-        if let Some(s) = &cfg.s_priv {
-            b = b.local_private_key(s)?;
+        // the builder calls in the order this configuration prescribes
+        let mut steps = vec![0u8, 1, 2, 3];
+        let mut code = (cfg.build_order % 24) as usize;
+        let mut order = vec![];
+        for n in (1..=4).rev() {
+            order.push(steps.remove(code % n));
+            code /= n;
         }
-        if let Some(r) = &cfg.rs_pub {
-            b = b.remote_public_key(r)?;
+        for step in order {
+            match step {
+                0 => {
+                    for (i, k) in &keys {
+                        b = b.psk(*i, k)?;
+                    }
+                },
+                1 => {
+                    if let Some(s) = &cfg.s_priv {
+                        b = b.local_private_key(s)?;
+                    }
+                },
+                2 => {
+                    if let Some(r) = &cfg.rs_pub {
+                        b = b.remote_public_key(r)?;
+                    }
+                },
+                _ => {
+                    if !(cfg.prologue.is_empty() && cfg.build_order & 32 != 0) {
+                        b = b.prologue(&cfg.prologue)?;
+                    }
+                },
+            }
         }
-        b = b.prologue(&cfg.prologue)?;
         if cfg.initiator {
             b.build_initiator()
         } else {
